@@ -34,6 +34,7 @@ type interpreter struct {
 	sched   *scheduler
 	res     *HarnessResult
 	trace   bool
+	realFns map[string]bool // functions whose model is bypassed (vpOpt "real:<name>")
 	// model state
 	now       *Term // last value returned by time.Now (seconds)
 	objCount  int
@@ -528,7 +529,7 @@ func callSSA(i *interpreter, caller *frame, callpos token.Pos, fn *ssa.Function,
 			return nil
 		}
 	}
-	if ext := i.prog.lookupExternal(fn); ext != nil {
+	if ext := i.prog.lookupExternal(fn); ext != nil && !(i.realFns != nil && i.realFns[fn.Name()] && fn.Blocks != nil) {
 		if i.trace {
 			fmt.Fprintf(os.Stderr, "%*sext %s\n", depth(caller), "", fn)
 		}
